@@ -2,8 +2,7 @@
 C02 on the payload layer — `DecOK` / `DecOKIf` for the payload classes of the second batch (Model/PayloadSimple.lean,
 PayloadEffects, PayloadPatterns, PayloadLinked, PayloadDescWrap): the element classes of base.py with their fallbacks, colours,
 the fixed-layout tagged-block payloads, metadata settings, annotations, the effects layer, patterns, linked layers, the
-descriptor wrappers. Side conditions (`…If`): descriptor keys read in full, and the lengths the writer derives for
-re-encoded blocks.
+descriptor wrappers. Side conditions (`…If`): the lengths the writer derives for re-encoded blocks.
 -/
 import PsdVerif.Lemmas.PayloadResaveDesc
 import PsdVerif.Lemmas.PayloadSimple
@@ -170,10 +169,10 @@ theorem PixelSourceData2.decOK (pad : Nat) (hp : pad = 1 ∨ pad = 2 ∨ pad = 4
 
 /-! ### metadata settings, annotations -/
 
-/-- the side conditions of a metadata item: a descriptor payload has no key cut short, and the length of the re-encoded
-payload (a descriptor is written with padding 4) fits the 4-byte length field -/
+/-- the side condition of a metadata item: the length of the re-encoded payload (a descriptor is written with padding 4)
+fits the 4-byte length field -/
 def MetadataSetting.ResaveOK (tb : Descriptor.Tables) (x : MetadataSetting) : Prop :=
-  (match x.data with | .desc blk => blk.KeysFull | _ => True) ∧ FitsU 4 (MetadataSetting.dataT tb x.data).length
+  FitsU 4 (MetadataSetting.dataT tb x.data).length
 
 theorem MetadataSetting.decOKIf (tb : Descriptor.Tables) (ht : Descriptor.TermsFour tb) :
     DecOKIf (MetadataSetting.codec tb) (MetadataSetting.ResaveOK tb) := by
@@ -193,17 +192,17 @@ theorem MetadataSetting.decOKIf (tb : Descriptor.Tables) (ht : Descriptor.TermsF
   · rename_i hint
     ebind h6; rename_i n q hn
     cases h6
-    exact ⟨⟨hsig, hkey, hint⟩, (readU_ok hn).1, hl.2⟩
+    exact ⟨⟨hsig, hkey, hint⟩, (readU_ok hn).1, hl⟩
   · rename_i hint
     split at h6
     · rename_i hdesc
       ebind h6; rename_i blk q hb
       cases h6
-      obtain ⟨f, w, _⟩ := Descriptor.Block.dec_good ht data 0 blk q hb
-      exact ⟨⟨hsig, hkey, hint, hdesc, w hl.1⟩, f, hl.2⟩
+      obtain ⟨f, w⟩ := Descriptor.Block.dec_good ht data 0 blk q hb
+      exact ⟨⟨hsig, hkey, hint, hdesc, w⟩, f, hl⟩
     · rename_i hdesc
       cases h6
-      exact ⟨⟨hsig, hkey, hint, hdesc⟩, trivial, hl.2⟩
+      exact ⟨⟨hsig, hkey, hint, hdesc⟩, trivial, hl⟩
 
 theorem MetadataSettings.decOKIf (tb : Descriptor.Tables) (ht : Descriptor.TermsFour tb) :
     DecOKIf (MetadataSettings.codec tb) (fun xs => ∀ x ∈ xs, MetadataSetting.ResaveOK tb x) := by
@@ -627,24 +626,24 @@ theorem Patterns.decOKIf : DecOKIf Patterns.codec Patterns.LenFits := by
 section descwrap
 variable (tb : Descriptor.Tables)
 
-theorem SmartObjectLayerData.decOKIf (ht : Descriptor.TermsFour tb) (pad : Nat) :
-    DecOKIf (SmartObjectLayerData.codec tb pad) (fun x => x.data.KeysFull) := by
-  intro d p v p' h hl
+theorem SmartObjectLayerData.decOK (ht : Descriptor.TermsFour tb) (pad : Nat) :
+    DecOK (SmartObjectLayerData.codec tb pad) := by
+  intro d p v p' h
   simp only [SmartObjectLayerData.codec, SmartObjectLayerData.dec, bind, Except.bind] at h
   ebind h; rename_i x1 h1
   ebind h; rename_i x2 h2
   ebind h; rename_i x3 h3
   ebind h; rename_i hvalid
   cases h
-  obtain ⟨f, w, _⟩ := Descriptor.Block.dec_good ht d _ _ _ h3
-  exact ⟨⟨hvalid, w hl⟩, (readU_ok h2).1, f⟩
+  obtain ⟨f, w⟩ := Descriptor.Block.dec_good ht d _ _ _ h3
+  exact ⟨⟨hvalid, w⟩, (readU_ok h2).1, f⟩
 
 theorem readF64s_len {n : Nat} {d : B} {p : Nat} {zs : List UInt64} {p' : Nat} (h : readCount readF64 n d p = .ok (zs, p')) :
     zs.length = n := (readCount_ok h).1
 
-theorem PlacedLayerData.decOKIf (ht : Descriptor.TermsFour tb) (pad : Nat) :
-    DecOKIf (PlacedLayerData.codec tb pad) (fun x => x.warp.KeysFull) := by
-  intro d p v p' h hl
+theorem PlacedLayerData.decOK (ht : Descriptor.TermsFour tb) (pad : Nat) :
+    DecOK (PlacedLayerData.codec tb pad) := by
+  intro d p v p' h
   simp only [PlacedLayerData.codec, PlacedLayerData.dec, bind, Except.bind] at h
   ebind h; rename_i x1 h1
   ebind h; rename_i x2 h2
@@ -657,13 +656,13 @@ theorem PlacedLayerData.decOKIf (ht : Descriptor.TermsFour tb) (pad : Nat) :
   ebind h; rename_i x9 h9
   ebind h; rename_i hvalid
   cases h
-  obtain ⟨f, w, _⟩ := Descriptor.Block2.dec_good ht d _ _ _ h9
-  exact ⟨⟨hvalid, (readN_ok h1).1, w hl⟩, (readU_ok h2).1, readPascal_ok h3, (readU_ok h4).1, (readU_ok h5).1, (readU_ok h6).1,
+  obtain ⟨f, w⟩ := Descriptor.Block2.dec_good ht d _ _ _ h9
+  exact ⟨⟨hvalid, (readN_ok h1).1, w⟩, (readU_ok h2).1, readPascal_ok h3, (readU_ok h4).1, (readU_ok h5).1, (readU_ok h6).1,
     (readU_ok h7).1, readF64s_len h8, f⟩
 
-theorem TypeToolObjectSetting.decOKIf (ht : Descriptor.TermsFour tb) (pad : Nat) :
-    DecOKIf (TypeToolObjectSetting.codec tb pad) (fun x => x.textData.KeysFull ∧ x.warp.KeysFull) := by
-  intro d p v p' h hl
+theorem TypeToolObjectSetting.decOK (ht : Descriptor.TermsFour tb) (pad : Nat) :
+    DecOK (TypeToolObjectSetting.codec tb pad) := by
+  intro d p v p' h
   simp only [TypeToolObjectSetting.codec, TypeToolObjectSetting.dec, bind, Except.bind] at h
   ebind h; rename_i x1 h1
   ebind h; rename_i x2 h2
@@ -677,9 +676,9 @@ theorem TypeToolObjectSetting.decOKIf (ht : Descriptor.TermsFour tb) (pad : Nat)
   ebind h; rename_i x10 h10
   ebind h; rename_i hvalid
   cases h
-  obtain ⟨f1, w1, _⟩ := Descriptor.Block.dec_good ht d _ _ _ h4
-  obtain ⟨f2, w2, _⟩ := Descriptor.Block.dec_good ht d _ _ _ h6
-  exact ⟨⟨hvalid, w1 hl.1, w2 hl.2⟩, (readU_ok h1).1, readF64s_len h2, (readU_ok h3).1, f1, (readU_ok h5).1, f2,
+  obtain ⟨f1, w1⟩ := Descriptor.Block.dec_good ht d _ _ _ h4
+  obtain ⟨f2, w2⟩ := Descriptor.Block.dec_good ht d _ _ _ h6
+  exact ⟨⟨hvalid, w1, w2⟩, (readU_ok h1).1, readF64s_len h2, (readU_ok h3).1, f1, (readU_ok h5).1, f2,
     (readI32_ok h7).1, (readI32_ok h8).1, (readI32_ok h9).1, (readI32_ok h10).1⟩
 
 end descwrap
@@ -700,7 +699,7 @@ theorem readTs_ok {d : B} {p : Nat} {t : Timestamp} {p' : Nat} (h : readTs d p =
 
 /-- what the kind branch sets, kind by kind -/
 structure KindOK (kind : B) (version datasize : Nat) (k : KindPart) : Prop where
-  lf : ∀ b, k.linkedFile = some b → b.Fits tb ∧ (b.KeysFull → b.WF tb)
+  lf : ∀ b, k.linkedFile = some b → b.Fits tb ∧ b.WF tb
   ext : kind = GP.linkedExternal → k.linkedFile.isSome ∧ (version > 3 → tsReq k.timestamp) ∧
       (k.filesize.isSome ∧ Psd.optFits 8 k.filesize) ∧ (version > 2 → k.data.isSome) ∧ (version ≤ 3 → k.timestamp = none) ∧
       (version ≤ 2 → k.data = none)
@@ -727,7 +726,7 @@ theorem kindDec_ok (ht : Descriptor.TermsFour tb) {kind : B} {version datasize :
     ebind h0; rename_i y3 g3
     ebind h0; rename_i y4 g4
     cases h0
-    obtain ⟨f, w, _⟩ := Descriptor.Block.dec_good ht d _ _ _ g1
+    obtain ⟨f, w⟩ := Descriptor.Block.dec_good ht d _ _ _ g1
     have hts : (version > 3 → tsReq y2.fst) ∧ (version ≤ 3 → y2.fst = none) := by
       split at g2
       · rename_i hv
@@ -826,12 +825,8 @@ theorem tailDec_ok {version : Nat} {d : B} {p : Nat} {r : Option Str × Option U
   exact ⟨a.1, b, c.1, a.2.1, a.2.2, c.2⟩
 
 
-/-- the side condition: no key of the two descriptors was cut short -/
-def KeysOK (x : LinkedLayer) : Prop :=
-  (∀ b, x.openFile = some b → b.KeysFull) ∧ (∀ b, x.linkedFile = some b → b.KeysFull)
-
-theorem decOKIf (ht : Descriptor.TermsFour tb) (pad : Nat) : DecOKIf (codec tb pad) KeysOK := by
-  intro d p v p' h hl
+theorem decOK (ht : Descriptor.TermsFour tb) (pad : Nat) : DecOK (codec tb pad) := by
+  intro d p v p' h
   simp only [codec, dec, bind, Except.bind] at h
   ebind h; rename_i x1 h1; obtain ⟨kind, q1⟩ := x1; simp only at h
   ebind h; rename_i hkind
@@ -848,7 +843,6 @@ theorem decOKIf (ht : Descriptor.TermsFour tb) (pad : Nat) : DecOKIf (codec tb p
   ebind h; rename_i x11 h11; obtain ⟨⟨cid, mt, ls⟩, q11⟩ := x11; simp only at h
   ebind h; rename_i x12 h12; obtain ⟨data, q12⟩ := x12
   cases h
-  simp only [KeysOK] at hl
   obtain ⟨s1, s2, s3⟩ := readUStr_ok h4
   have hds := (readU_ok h7).1
   obtain ⟨t1, t2, t3, t4, t5, t6⟩ := tailDec_ok h11
@@ -859,16 +853,15 @@ theorem decOKIf (ht : Descriptor.TermsFour tb) (pad : Nat) : DecOKIf (codec tb p
     · unfold Codec.optItem at h9
       ebind h9; rename_i b q hb
       cases h9
-      obtain ⟨f, w, _⟩ := Descriptor.Block.dec_good ht d _ _ _ hb
-      exact ⟨f, w (hl.1 b rfl)⟩
+      obtain ⟨f, w⟩ := Descriptor.Block.dec_good ht d _ _ _ hb
+      exact ⟨f, w⟩
     · cases h9
       exact ⟨trivial, trivial⟩
   have hlf : optBlockFits tb k.linkedFile ∧ optBlockWF tb k.linkedFile := by
     cases hk : k.linkedFile with
     | none => exact ⟨trivial, trivial⟩
     | some b =>
-      obtain ⟨f, w⟩ := K.lf b hk
-      exact ⟨f, w (hl.2 b hk)⟩
+      exact K.lf b hk
   -- the data as the last step leaves it
   have hdata : (kind = GP.linkedExternal → version = 2 → data.isSome) ∧
       (¬ (kind = GP.linkedExternal ∧ version = 2) → data = k.data) ∧ (∀ b, data = some b → b.length ≤ datasize) := by
@@ -927,8 +920,9 @@ theorem decOKIf (ht : Descriptor.TermsFour tb) (pad : Nat) : DecOKIf (codec tb p
 
 end LinkedLayer
 
+/-- the side condition of the linked layers: the 8-byte length field of every re-encoded item -/
 def LinkedLayers.ResaveOK (tb : Descriptor.Tables) (xs : List LinkedLayer) : Prop :=
-  ∀ x ∈ xs, LinkedLayer.KeysOK x ∧ FitsU 8 (x.encT tb 1).length
+  ∀ x ∈ xs, FitsU 8 (x.encT tb 1).length
 
 theorem LinkedLayers.decOKIf (tb : Descriptor.Tables) (ht : Descriptor.TermsFour tb) :
     DecOKIf (LinkedLayers.codec tb) (LinkedLayers.ResaveOK tb) := by
@@ -941,7 +935,7 @@ theorem LinkedLayers.decOKIf (tb : Descriptor.Tables) (ht : Descriptor.TermsFour
     ebind hq; rename_i y hy
     ebind hq; rename_i z hz
     cases hq
-    exact LinkedLayer.decOKIf tb ht 1 _ 0 _ _ hz (hl _ hx).1
-  exact ⟨fun x hx => (hall x hx).1, fun x hx => ⟨(hall x hx).2, (hl x hx).2⟩⟩
+    exact LinkedLayer.decOK tb ht 1 _ 0 _ _ hz
+  exact ⟨fun x hx => (hall x hx).1, fun x hx => ⟨(hall x hx).2, hl x hx⟩⟩
 
 end PsdVerif.Payload
